@@ -54,18 +54,25 @@ def run(c):
                 "PacketPoolMC.quick2.cfg"]
     else:
         cfgs = ["PacketPoolMC.quick.cfg", "PacketPoolMC.quick2.cfg"]
+    if os.environ.get("C14_SKIPMC"):      # development only (mutation runs exercise the binding)
+        cfgs = []
     for cfg in cfgs:
         c.mc("PacketPool", cfg, timeout=3000)
     # model-only demonstrations (expected to fail in the model; never a verdict)
-    r = c.tlc("PacketPool", "PacketPoolMC.anystop.cfg", timeout=600)
-    if "NoSendOnClosed" in r.inv_violated:
+    demo = not os.environ.get("C14_SKIPMC")
+    r = c.tlc("PacketPool", "PacketPoolMC.anystop.cfg", timeout=600) if demo else None
+    if not demo:
+        pass
+    elif "NoSendOnClosed" in r.inv_violated:
         c.notes.append("model only: dataPlane.Shutdown at an arbitrary moment closes the egress queues while "
                        "processors / BFD senders may still Send -> send on closed channel (panic); the driver "
                        "therefore shuts down from a quiescent pipeline")
     else:
         raise vlib.Infra("anystop variant did not show the send-on-closed-channel counterexample")
-    r = c.tlc("PacketPool", "PacketPoolMC.bfdleak.cfg", timeout=600)
-    if "OwnerUnique" in r.inv_violated:
+    r = c.tlc("PacketPool", "PacketPoolMC.bfdleak.cfg", timeout=600) if demo else None
+    if not demo:
+        pass
+    elif "OwnerUnique" in r.inv_violated:
         c.notes.append("model only: a serialize error in bfdSend.Send would return without Put (DESIGN D10 leak); "
                        "not reachable from the driver (bfderr events: see evidence)")
     else:
